@@ -2,10 +2,11 @@
    composition with T05 (figures), T04 (heads), C04 (layout), C06 (journal text). *)
 From Coq Require Import List ZArith NArith Bool Arith Lia Permutation.
 From TkModel Require Import Base Dec Acct Txn Accept Journal Balance Register Round Price Time Group.
-From TkModel Require Import ReportText T05_report PriceText Regex T06_run.
+From TkModel Require Import ReportText T05_report PriceText Regex T06_describe T06_run.
 From TkModel Require Filter Equity EquityText MetaText Audit Codec Tstamp Config.
-From TkSpec Require Import Balance_spec Register_spec Round_spec Price_spec ReportText_spec T05_spec T06_spec.
-From TkProofs Require Import ReportText_proofs T05_proofs Journal_layout_proofs.
+From TkSpec Require Import Balance_spec Register_spec Round_spec Price_spec ReportText_spec T05_spec T05_grp_spec T06_spec.
+From TkProofs Require Import ReportText_proofs T05_proofs T05_grp_proofs Journal_layout_proofs.
+From TkProofs Require Codec_jv_proofs.
 Import ListNotations.
 Local Open Scope Z_scope.
 
@@ -345,7 +346,8 @@ Section Main.
                                        (rs_lk st) (rc_commodity cfg) (rs_db st) (sel_of cfg k) (rs_txns st)
          end.
   Proof.
-    unfold report_text. destruct (report_body cfg st k) as [b|] eqn:Eb; cbn [option_map]; [|discriminate].
+    unfold report_text. destruct (conv_overflow cfg st); [discriminate|].
+    destruct (report_body cfg st k) as [b|] eqn:Eb; cbn [option_map]; [|discriminate].
     intros Hr. inversion Hr. exists b. split; [reflexivity|].
     unfold report_body in Eb. destruct k; [exact Eb|exact Eb|inversion Eb; reflexivity].
   Qed.
@@ -407,6 +409,25 @@ Section Main.
     destruct (run_hyp_sound _ _ Hh) as (Hsc & Hdk & _ & _ & Ht3 & Hdom & _ & Hrn).
     eexists pre, _, body, post. split; [reflexivity|].
     rewrite Hb. apply conv_register_text_shows; assumption.
+  Qed.
+
+  (* T06_balgrp_figures *)
+  Lemma console_balgrp_figures cfg j p out :
+    run_console H cfg j p = Ok out -> In MetaText.RBalGroup (rc_targets cfg) ->
+    exists st, run_prepare H cfg j p = Ok st
+      /\ (run_hyp cfg st = true ->
+          exists pre head body post,
+            out = pre ++ (repeat 42%N 82 ++ [10%N]) ++ (head ++ body) ++ (repeat 35%N 82 ++ [10%N]) ++ post
+            /\ balgrp_text_spec (rc_title_grp cfg) (rc_scale cfg) (rc_group_by cfg) (rtz cfg) (rs_lk st) (rc_commodity cfg)
+                                (rs_file st) (sel_of cfg MetaText.RBalGroup) (rs_txns st) body).
+  Proof.
+    intros Hr Hin. destruct (console_embeds _ _ _ _ _ Hr Hin) as (st & r & pre & post & Hp & Hk & ->).
+    exists st. split; [exact Hp|]. intros Hh.
+    destruct (report_text_inv _ _ _ _ Hk) as (body & -> & Hb).
+    destruct (state_spec _ _ _ _ Hp) as [Hdb _]. rewrite Hdb in Hb.
+    destruct (run_hyp_sound _ _ Hh) as (Hsc & Hdk & _ & _ & _ & Hdom & Hbn & _).
+    eexists pre, _, body, post. split; [reflexivity|].
+    eapply conv_balgrp_text_shows; eassumption.
   Qed.
 
   (* ================================================================ errors: all or nothing *)
@@ -561,6 +582,22 @@ Proof.
   intros Hf. unfold Config.file_sel, eff_sel, Config.or_else. rewrite Hf.
   destruct per as [l|]; cbn [option_map]; [reflexivity|]. destruct global as [g|]; reflexivity.
 Qed.
+
+(* ================================================================== the filter description at offset 0 is Codec's *)
+Lemma ts_show_tz_utc z : ts_show_rfc3339_tz 0 z = Codec.ts_show_rfc3339_utc z.
+Proof. unfold ts_show_rfc3339_tz, Codec.ts_show_rfc3339_utc. rewrite Z.mul_0_l, Z.add_0_r. reflexivity. Qed.
+
+Lemma describe_tz_utc f : forall indent, describe_tz 0 indent f = Codec.describe indent f.
+Proof.
+  induction f as [f L|fs IH|fs IH|g IH] using Codec_jv_proofs.c18_cfilter_ind; intros indent.
+  - destruct f; try reflexivity; try (destruct L); cbn [describe_tz Codec.describe]; rewrite ts_show_tz_utc; reflexivity.
+  - cbn [describe_tz Codec.describe]. f_equal. f_equal. induction IH as [|g fs Hg _ IHfs]; cbn [map]; [reflexivity|]. rewrite Hg, IHfs. reflexivity.
+  - cbn [describe_tz Codec.describe]. f_equal. f_equal. induction IH as [|g fs Hg _ IHfs]; cbn [map]; [reflexivity|]. rewrite Hg, IHfs. reflexivity.
+  - cbn [describe_tz Codec.describe]. rewrite IH. reflexivity.
+Qed.
+
+Lemma describe_def_tz_utc f : describe_def_tz 0 f = Codec.describe_def f.
+Proof. unfold describe_def_tz, Codec.describe_def. rewrite describe_tz_utc. reflexivity. Qed.
 
 (* ================================================================== the oracles *)
 Lemma body_oracle_sound cfg file txns k body : body_oracle cfg file txns k body = true ->
